@@ -206,20 +206,28 @@ func (e *Engine) runScheduler() {
 func (e *Engine) reschedule(cur *Goroutine, curRunnable bool) {
 	s := e.p.sched
 	for {
+		// delay-bounded scheduling (Emmi/Qadeer/Rakamaric): the default is the deterministic
+		// round-robin successor (the current goroutine if it can continue); choosing the k-th
+		// candidate instead costs k delays out of the budget cfg.Preempt.
 		var opts []*Goroutine
 		if curRunnable {
 			opts = append(opts, cur)
 		}
-		for _, g := range e.p.gs {
+		ng0 := len(e.p.gs)
+		for d := 1; d <= ng0; d++ {
+			g := e.p.gs[(cur.id+d)%ng0]
 			if g == cur && curRunnable {
 				continue
 			}
 			if g.status != gDone && e.enabled(g) {
-				if curRunnable && s.preempts >= e.cfg.Preempt {
-					continue
-				}
 				opts = append(opts, g)
 			}
+		}
+		if budget := e.cfg.Preempt - s.preempts; len(opts) > budget+1 {
+			if budget < 0 {
+				budget = 0
+			}
+			opts = opts[:budget+1]
 		}
 		timerOpt := -1
 		if e.cfg.TimerAnyTime && len(opts) > 0 {
@@ -251,8 +259,8 @@ func (e *Engine) reschedule(cur *Goroutine, curRunnable bool) {
 			continue
 		}
 		ng := opts[k]
-		if curRunnable && ng != cur {
-			s.preempts++
+		if k < len(opts) {
+			s.preempts += k
 		}
 		if ng.status == gBlocked {
 			ng.status = gRunnable
